@@ -399,6 +399,7 @@ class Hooks:
         self.tool = None
         self.variant = {}            # extra keyword arguments of the API call (driver variants)
         self.seq = []                # keys of the executed call expressions, in order
+        self.keep = []               # objects the caller still holds after the API call (as a user would)
 
     def key_at(self, offset):
         p = self.pos[offset // 2]
@@ -469,6 +470,18 @@ def _cleanup_timers():
     return False
 
 
+def _cleanup_executors():
+    """shut down executors that the library left running (so that the check itself can exit)"""
+    import gc
+    import concurrent.futures as cf
+    for o in gc.get_objects():
+        try:
+            if isinstance(o, cf.ThreadPoolExecutor) and not o._shutdown:
+                o.shutdown(wait=True)
+        except Exception:  # noqa
+            pass
+
+
 def run_api(driver, fn, mode, chosen=None, progress_type="bar", variant=None):
     """-> dict(exception, timers_alive=[...], fired, reach)"""
     hooks = Hooks(fn.__code__)
@@ -489,6 +502,8 @@ def run_api(driver, fn, mode, chosen=None, progress_type="bar", variant=None):
                 res["exception"] = "FaultInjected: %s" % e
             except Exception as e:  # noqa
                 res["exception"] = "%s: %s" % (type(e).__name__, e)
+        for t in [t for t in threading.enumerate() if t not in before and not isinstance(t, _RealTimer)]:
+            t.join(0.3)          # workers of an executor that was shut down leave on their own
         alive = [t for t in threading.enumerate() if t not in before and t.is_alive()]
         res["timers_alive"] = ["%s(%s)" % (type(t).__name__, t.name) for t in alive if isinstance(t, _RealTimer) and not t.finished.is_set()]
         res["other_threads_alive"] = ["%s(%s)" % (type(t).__name__, t.name) for t in alive if not isinstance(t, _RealTimer)]
@@ -496,6 +511,8 @@ def run_api(driver, fn, mode, chosen=None, progress_type="bar", variant=None):
     finally:
         sys.stdout = old
         res["cleanup_ok"] = _cleanup_timers()
+        _cleanup_executors()
+        hooks.keep.clear()
     res["fired"] = hooks.fired
     res["reach"] = hooks.reach
     res["counts"] = hooks.counts
@@ -621,6 +638,23 @@ def drv_pt_tebd(hooks, ptype):
     p.compute(end_step=3, progress_type=ptype)
 
 
+def drv_pt_tebd_multithread(hooks, ptype):
+    """4-site chain, documented back-end option {'parallel': 'multithread'}"""
+    import oqupy as oq
+    sx, sz, up = oq.operators.sigma("x"), oq.operators.sigma("z"), oq.operators.spin_dm("z+")
+    n = 4
+    chain = oq.SystemChain([2] * n)
+    for k in range(n):
+        chain.add_site_hamiltonian(site=k, hamiltonian=0.5 * sz)
+    for k in range(n - 1):
+        chain.add_nn_hamiltonian(site=k, hamiltonian_l=0.3 * sx, hamiltonian_r=sx)
+    par = oq.PtTebdParameters(dt=0.1, order=2, epsrel=1.0e-6)
+    p = oq.PtTebd(initial_augmented_mps=oq.AugmentedMPS([up] * n), system_chain=chain, process_tensors=[None] * n,
+                  parameters=par, dynamics_sites=list(range(n)), backend_config={"parallel": "multithread"})
+    hooks.keep.append(p)     # the user keeps the PtTebd object (results are read from it): its executor is not garbage
+    p.compute(end_step=3, progress_type=ptype)
+
+
 def drv_correlations_nt(hooks, ptype):
     import numpy as np
     import oqupy as oq
@@ -638,6 +672,11 @@ VARIANTS = {
     "oqupy.system_dynamics.compute_dynamics": [{}, {"record_all": False}],
     "oqupy.system_dynamics.compute_dynamics_with_field": [{}, {"record_all": False}],
     "oqupy.gradient.compute_gradient_and_dynamics": [{}, {"record_all": False}],
+}
+
+EXEC_DRIVERS = {
+    # outermost caller of the executor-constructing function -> driver
+    "oqupy.pt_tebd.PtTebd.compute": drv_pt_tebd_multithread,
 }
 
 DRIVERS = {
